@@ -13,7 +13,7 @@ def E1():
     T = {"name": "T",
          "ports": [port("a", 1, "in"), port("y", 1, "out"), port("b", 2, "in"),
                    dict(port("c", 3, "out", lower=2)), dict(port("s", 1, "in", array=True), range=True)],
-         "insts": [{"name": "u0", "ref": ["prims", "L1"], "props": [["INIT", "8'h01"], ["N", 3], ["F", True]]},
+         "insts": [{"name": "u0", "ref": ["prims", "L1"], "props": [["weird first", "x"], ["INIT", "8'h01"], ["N", 3], ["F", True]]},
                    {"name": "u1", "ref": ["prims", "L1"]},
                    {"name": "u2", "ref": ["prims", "L2"], "props": [["weird-name", "v"]]}],
          "nets": [{"name": "n1", "bits": [[["P", "a", 0], ["I", "u0", "i", 0]]]},
@@ -50,7 +50,20 @@ def E3():
                      {"name": "extra", "defs": [dict(L2)]}]}
 
 
-BASES = {"E1": E1, "E2": E2, "E3": E3}
+def E4():
+    """one cell instantiating cells of two other libraries (both must precede it in the file)."""
+    inv = {"name": "INV", "ports": [port("i", 1, "in"), port("o", 1, "out")], "insts": [], "nets": []}
+    ff = {"name": "FF", "ports": [port("d", 1, "in"), port("q", 1, "out")], "insts": [], "nets": []}
+    T = {"name": "top", "ports": [port("x", 1, "in"), port("z", 1, "out")],
+         "insts": [{"name": "u_inv", "ref": ["gates", "INV"]}, {"name": "u_ff", "ref": ["regs", "FF"], "props": [["A b", 1], ["B", "two"], ["C", False]]}],
+         "nets": [{"name": "n0", "bits": [[["P", "x", 0], ["I", "u_inv", "i", 0]]]},
+                  {"name": "n1", "bits": [[["I", "u_inv", "o", 0], ["I", "u_ff", "d", 0]]]},
+                  {"name": "n2", "bits": [[["I", "u_ff", "q", 0], ["P", "z", 0]]]}]}
+    return {"name": "e4", "top": ["work", "top"], "top_name": "top",
+            "libs": [{"name": "gates", "defs": [inv]}, {"name": "regs", "defs": [ff]}, {"name": "work", "defs": [T]}]}
+
+
+BASES = {"E1": E1, "E2": E2, "E3": E3, "E4": E4}
 
 
 def bus_renderings(width):
